@@ -335,6 +335,55 @@ Section Proofs.
     - rewrite cnt_repeat_true by reflexivity. lia.
   Qed.
 
+  (* ---------------- rehash_values keeps the multiset of stored pairs ---------------- *)
+
+  (* number of stored pairs satisfying Q; with Q = "equal to (k, v)" this is the multiplicity of (k, v) *)
+  Definition count_entries (Q : K -> V -> bool) (sl : list slotT) : nat :=
+    cnt (fun s => match s with Valid k v => Q k v | _ => false end) sl.
+
+  Lemma rehash_probe_lt : forall occ newcap fuel pos p,
+    0 < newcap -> pos < newcap -> rehash_probe fuel occ newcap pos = Some p -> p < newcap.
+  Proof.
+    intros occ newcap. induction fuel as [|f IH]; intros pos p Hn Hpos Hr; cbn [rehash_probe] in Hr; [discriminate|].
+    destruct (nth pos occ false).
+    - apply IH in Hr; auto. destruct (Nat.eqb_spec (S pos) newcap); lia.
+    - inversion Hr; subst. exact Hpos.
+  Qed.
+
+  Lemma rehash_loop_entries : forall (Q : K -> V -> bool) cur newcap, 0 < newcap ->
+    forall fuel sl occ i sl',
+      i <= cur -> cur <= length sl -> newcap <= length sl ->
+      rehash_loop K V h fuel cur newcap sl occ i = Done sl' ->
+      count_entries Q sl' = count_entries Q sl.
+  Proof.
+    intros Q cur newcap Hn. unfold count_entries.
+    set (P := fun s : slotT => match s with Valid k v => Q k v | _ => false end).
+    induction fuel as [|f IH]; intros sl occ i sl' Hi Hc Hnc Hr; cbn [rehash_loop] in Hr; [discriminate|].
+    destruct (Nat.eqb_spec i cur) as [->|Hne]; [inversion Hr; reflexivity|].
+    destruct (nth i sl E) as [| |k v] eqn:Hsl.
+    - apply IH in Hr; auto; lia.
+    - destruct (i <? newcap).
+      + apply IH in Hr; try rewrite upd_length; try lia. rewrite Hr.
+        pose proof (cnt_upd _ P E sl i E ltac:(lia)) as Hu. rewrite Hsl in Hu. cbn in Hu. lia.
+      + apply IH in Hr; auto; lia.
+    - destruct ((i <? newcap) && nth i occ false).
+      + apply IH in Hr; auto; lia.
+      + destruct (rehash_probe newcap occ newcap (hpos K h k newcap)) as [pos|] eqn:Hp; [|discriminate].
+        pose proof (rehash_probe_lt _ _ _ _ _ Hn (hpos_lt k newcap Hn) Hp) as Hpos.
+        apply IH in Hr; try rewrite swap_length; try lia.
+        * rewrite Hr. apply cnt_swap; lia.
+        * destruct (Nat.eqb_spec i pos); lia.
+  Qed.
+
+  Lemma rehash_values_entries : forall Q cur newcap sl sl',
+    0 < newcap -> cur <= length sl -> newcap <= length sl ->
+    rehash_values K V h cur newcap sl = Done sl' ->
+    count_entries Q sl' = count_entries Q sl.
+  Proof.
+    intros Q cur newcap sl sl' Hn Hc Hnc Hr. unfold rehash_values in Hr.
+    apply (rehash_loop_entries Q cur newcap Hn) in Hr; auto. lia.
+  Qed.
+
   (* ---------------- counting Valid slots under single updates ---------------- *)
 
   Lemma cv_upd_valid : forall sl p k v, p < length sl -> isv (nth p sl E) = false ->
@@ -403,6 +452,42 @@ Section Proofs.
     destruct (rehash_values_ok (length (slots m)) (length (slots m)) (slots m))
       as [sl' [Hr [Hlen [Hcv' _]]]]; try lia.
     rewrite Hr. eexists. split; [reflexivity|]. cbn [slots len]. repeat split; lia.
+  Qed.
+
+  Lemma not_valid_count : forall (Q : K -> V -> bool) (s : slotT),
+    isv s = false -> match s with Valid k v => Q k v | _ => false end = false.
+  Proof. intros Q [| |k v] Hs; cbn [is_valid] in Hs; [reflexivity|reflexivity|discriminate]. Qed.
+
+  (* rehash (grow / shrink / nothing) keeps the multiset of stored (key, value) pairs *)
+  Theorem rehash_entries : forall (Q : K -> V -> bool) (m m' : omapT) c,
+    cv (slots m) = len m -> len m < Nat.max c mincap ->
+    rehash K V h mincap m c = Done m' ->
+    count_entries Q (slots m') = count_entries Q (slots m).
+  Proof.
+    intros Q m m' c Hcv Hlt. unfold rehash, capacity.
+    destruct (Nat.compare_spec (length (slots m)) (Nat.max c mincap)) as [Heq|Hl|Hg]; intros Hr.
+    - inversion Hr; reflexivity.
+    - destruct (rehash_values K V h (length (slots m)) (Nat.max c mincap)
+                  (slots m ++ repeat E (Nat.max c mincap - length (slots m)))) as [sl'|] eqn:Hv; [|discriminate].
+      inversion Hr; subst m'; cbn [slots].
+      apply (rehash_values_entries Q) in Hv; try rewrite app_length, ?repeat_length; try lia.
+      rewrite Hv. unfold count_entries. rewrite cnt_app, cnt_repeat_false by reflexivity. lia.
+    - destruct (rehash_values_ok (length (slots m)) (Nat.max c mincap) (slots m))
+        as [sl' [Hv [Hlen [Hcv' Htl]]]]; try lia.
+      rewrite Hv in Hr. inversion Hr; subst m'; cbn [slots].
+      apply (rehash_values_entries Q) in Hv; try lia.
+      rewrite <- Hv. unfold count_entries. apply (cnt_firstn_all _ _ E).
+      intros p Hp1 Hp2. apply not_valid_count. apply Htl; lia.
+  Qed.
+
+  Theorem rehash_in_place_entries : forall (Q : K -> V -> bool) (m m' : omapT),
+    0 < cap m -> rehash_in_place K V h m = Done m' ->
+    count_entries Q (slots m') = count_entries Q (slots m).
+  Proof.
+    intros Q m m' Hc. unfold rehash_in_place, capacity in *.
+    destruct (rehash_values K V h (length (slots m)) (length (slots m)) (slots m)) as [sl'|] eqn:Hv; [|discriminate].
+    intros Hr. inversion Hr; subst m'; cbn [slots].
+    apply (rehash_values_entries Q) in Hv; auto.
   Qed.
 
   (* the reachable-state invariant *)
